@@ -82,6 +82,12 @@ def is_fresh_local(ctx, f, node, recv_expr):
     if not defs:
         return False
     for d in defs:
+        if isinstance(d, ast.AugAssign) and isinstance(d.target, ast.Name) and d.target.id == name and isinstance(d.op, ast.Add):
+            # `fresh += [...]` extends the same (still private) list object
+            v = d.value
+            if isinstance(v, (ast.List, ast.ListComp)) or (isinstance(v, ast.Call) and call_name(v) in ALLOC_CALLS):
+                continue
+            return False
         if not (isinstance(d, ast.Assign) and len(d.targets) == 1 and isinstance(d.targets[0], ast.Name)):
             return False
         v = d.value
